@@ -7,13 +7,14 @@
 //! This module parses eBPF assembly language source code.
 
 use combine::error::StreamError;
-use combine::parser::char::{alpha_num, char, digit, hex_digit, spaces, string};
+use combine::parser::char::{alpha_num, char, digit, hex_digit, letter, spaces, string};
 use combine::stream::StreamErrorFor;
 use combine::stream::position::{self};
 #[cfg(feature = "std")]
 use combine::EasyParser;
 use combine::{
-    attempt, between, eof, many, many1, one_of, optional, sep_by, ParseError, Parser, Stream,
+    attempt, between, eof, many, many1, not_followed_by, one_of, optional, sep_by, ParseError, Parser,
+    Stream,
 };
 
 use crate::lib::*;
@@ -83,7 +84,9 @@ where
     I: Stream<Token = char>,
     I::Error: ParseError<I::Token, I::Range, I::Position>,
 {
-    char('r').with(many1(digit())).and_then(|x: String| {
+    // An 'r' followed by a letter is not a register but the start of a mnemonic (rsh, rsh32,
+    // rsh64) after an instruction written without operands: backtrack in that case only.
+    attempt(char('r').skip(not_followed_by(letter()))).with(many1(digit())).and_then(|x: String| {
         x.parse::<i64>()
             .map_err(|_| StreamErrorFor::<I>::message_static_message("register number out of range"))
     })
